@@ -138,6 +138,16 @@ CLAIMED = {
         technique="symbolic execution (fork-complete over table intervals) of the real library code + z3 (LRA/NRA); data "
                   "identities by evaluation; counterexamples replayed with floats",
         design="4/C19"),
+    "C20": dict(
+        text="The real coupling controllers (P2G, G2P power- and gas-led, gas-to-gas) execute control_step / write_to_net on "
+             "tables with symbolic power, mass flow, scaling, efficiency and heating values (scalar and vector indices) and z3 "
+             "proves the written value to be the documented conversion; round trips return the product of the efficiencies "
+             "(NRA); the real run_control of a multinet (power flow stubbed, pipe net calculated symbolically) is proved to "
+             "leave the pipe net with exactly the results of a stand-alone symbolic pipeflow with the written values; the "
+             "combined convergence flag of _evaluate_multinet is evaluated over all verdict patterns of <= 3 nets.",
+        technique="symbolic execution of the real controller / run_control code + z3 term identities; verdict patterns "
+                  "enumerated; counterexamples replayed with floats on the real functions",
+        design="4/C20"),
 }
 
 NOT_APPLICABLE = {
